@@ -5,6 +5,9 @@ import re
 from .sexp import Sym, S, tag, find, find_all, dump
 
 def despace(s):
+    # comments are dropped by the time the text has been through syn / prettyplease
+    s = re.sub(r'/\*.*?\*/', ' ', s, flags=re.S)
+    s = re.sub(r'//[^\n]*', ' ', s)
     return re.sub(r'\s+', '', s)
 
 def canon_o3_items(items, side):
